@@ -129,7 +129,15 @@ func (c *fRegistryImpl) dispatch(opid uint64, frame []byte) error {
 	c.mu.RUnlock()
 	verifHook("reg.send", c, opid, 0)
 
-	resultC <- frame
-	verifHook("reg.sent", c, opid, 1)
+	// The result channel is buffered for the single response a request waits
+	// for. Never block the reader on it: a duplicate response, or a response
+	// for a request that already returned but has not unregistered yet, would
+	// otherwise stall every other in-flight request on this transport.
+	select {
+	case resultC <- frame:
+		verifHook("reg.sent", c, opid, 1)
+	default:
+		logger().Warnf("frugal: dropping duplicate response for opid %d", opid)
+	}
 	return nil
 }
